@@ -38,6 +38,28 @@ func main() {
 	if *seedAll {
 		os.Exit(rules.SeedMatrix())
 	}
+	if *seed != "" && *prop == "all" {
+		// run every claimed property on the changed tree; used with behaviour-preserving
+		// refactorings, where ANY new report is a false alarm
+		alarms := 0
+		for _, id := range rules.IDs() {
+			vs, err := rules.RunOnSeed(rules.Get(id), *seed, "quick")
+			if err != nil {
+				fmt.Printf("ERROR %s %v\n", id, err)
+				alarms++
+				continue
+			}
+			for _, v := range vs {
+				fmt.Printf("ALARM %s %s\n", id, v)
+				alarms++
+			}
+		}
+		fmt.Printf("alarms=%d\n", alarms)
+		if alarms > 0 {
+			os.Exit(3)
+		}
+		return
+	}
 	if *seed != "" {
 		p := rules.Get(*prop)
 		if p == nil {
